@@ -128,3 +128,34 @@ Example C20_hw_nonvacuous :
   /\ tog_tick 60 24 = 16777276 /\ tog_tick 16777276 24 = 60
   /\ hw_tick (Some {| n_reg := 1; n_wshift := 16; n_wwidth := 2; n_rshift := 24 |}) true true [5; 60] = [5; 16842812].
 Proof. vm_compute. repeat split. Qed.
+
+(** ** the monitor is not vacuous: on the recorded three-clock trace of a full-word write of all ones to the
+    register with fields (idle clock; AW+W accepted, BVALID, register 0x3C -> 0xFFF, write notification;
+    B accepted, hardware counter 0 -> 1) it answers ok, and it flags each of these changes of the slave's
+    outputs: a notification in the idle clock, no notification, a notification without the update, the
+    hardware-driven bits written by the bus, the hardware counter not counting *)
+Definition ex_mon : monitor :=
+  axi_monitor_x 3 [4] [4095] (Some {| n_reg := 0; n_wshift := 16; n_wwidth := 2; n_rshift := 24 |}).
+Definition ex_in (awvalid wvalid bready : bool) : list value :=
+  [VV KUns 4 4; VV KUns 3 0; VL awvalid; VV KSlv 32 4294967295; VV KSlv 4 15; VL wvalid; VL bready;
+   VV KUns 4 0; VV KUns 3 0; VL false; VL false].
+Definition ex_out (ready bvalid : bool) (reg : Z) (ntw : bool) : list value :=
+  [VL ready; VL ready; VV KSlv 2 0; VL bvalid; VL true; VV KSlv 32 0; VV KSlv 2 0; VL false; VV KSlv 32 reg; VL ntw; VL false].
+Definition ex_trace (ntw1 : bool) (reg2 : Z) (ntw2 : bool) (reg3 : Z) : list bool :=
+  mon_trace ex_mon (axi_m0 [60])
+    [(ex_in false false false, ex_out true false 60 ntw1);
+     (ex_in true true false, ex_out false true reg2 ntw2);
+     (ex_in false false true, ex_out true false reg3 false)].
+
+Example C20_monitor_accepts_real_trace : ex_trace false 4095 true 69631 = [true; true; true].
+Proof. vm_compute. reflexivity. Qed.
+Example C20_monitor_flags_spurious_notification : nth 0 (ex_trace true 4095 true 69631) true = false.
+Proof. vm_compute. reflexivity. Qed.
+Example C20_monitor_flags_missing_notification : nth 1 (ex_trace false 4095 false 4095) true = false.
+Proof. vm_compute. reflexivity. Qed.
+Example C20_monitor_flags_notification_without_update : nth 1 (ex_trace false 60 true 69631) true = false.
+Proof. vm_compute. reflexivity. Qed.
+Example C20_monitor_flags_bus_write_of_hardware_bits : nth 1 (ex_trace false 4294967295 true 4294967295) true = false.
+Proof. vm_compute. reflexivity. Qed.
+Example C20_monitor_flags_missing_hardware_update : nth 2 (ex_trace false 4095 true 4095) true = false.
+Proof. vm_compute. reflexivity. Qed.
